@@ -72,6 +72,13 @@ def run(ctx):
     rule_txt(ctx, F)
     rule_arr(ctx, F)
     rule_skip(ctx, F)
+    # "whatever is returned as a name or record can itself be ... compared and displayed without failure":
+    # the flat-slice shortcut of ParsedName is sound only if its `compressed` flag is (shared with C03), and
+    # displaying NSEC3 / DS / key data goes through the base16/32/64 encoders (shared with C18)
+    import c03
+    import c18
+    c03.rule_flag(ctx, F)
+    c18.rule_enc(ctx, F)
 
 
 # ---------------------------------------------------------------------------
